@@ -262,6 +262,76 @@ var xfpOthers = func() []xfpVariant {
 }()
 
 // ---------------------------------------------------------------------------------------------
+// hostile forwarding headers: nothing a client supplies besides the effective request host (the Host
+// header, or the authority of an absolute-form target) may decide a cookie's Domain or a redirect's host
+
+type forward struct {
+	Via     string      `json:"via,omitempty"`   // lower-case header name, or "host-header" (absolute-form target with another Host header)
+	Kind    string      `json:"kind,omitempty"`  // parent | sibling | unrelated | list | port | ipv6
+	Value   string      `json:"value,omitempty"` // the hostile host
+	Headers [][2]string `json:"-"`
+	AbsForm bool        `json:"absolute_form,omitempty"`
+}
+
+func (f forward) via() string {
+	if f.Via == "" {
+		return "none"
+	}
+	return f.Via
+}
+
+var forwardHeaders = []string{"X-Forwarded-Host", "X-Forwarded-Host", "X-Forwarded-Host", "Forwarded", "X-Host", "X-Original-Host",
+	"X-Forwarded-Server", "X-HTTP-Host-Override", "X-Forwarded-Port", "X-Forwarded-For", "host-header"}
+var forwardKinds = []string{"parent", "parent", "sibling", "unrelated", "list", "port", "ipv6"}
+
+func pickForward(r *rand.Rand, effHost string) forward {
+	if r.Intn(3) == 0 {
+		return forward{}
+	}
+	f := forward{Kind: forwardKinds[r.Intn(len(forwardKinds))]}
+	name := forwardHeaders[r.Intn(len(forwardHeaders))]
+	f.Via = strings.ToLower(name)
+	bare := hostNoPort(effHost)
+	parent := "test"
+	if i := strings.IndexByte(bare, '.'); i >= 0 && i+1 < len(bare) {
+		parent = bare[i+1:]
+	}
+	switch f.Kind {
+	case "parent":
+		f.Value = parent
+	case "sibling":
+		f.Value = "evil." + parent
+	case "unrelated":
+		f.Value = "evil.example"
+	case "list":
+		f.Value = "evil.example, " + effHost
+	case "port":
+		f.Value = "evil.example:8443"
+	case "ipv6":
+		f.Value = "[2001:db8::1]"
+	}
+	switch name {
+	case "host-header":
+		// absolute-form target: its authority is the effective host, the Host header is ignored
+		f.AbsForm = true
+		if f.Kind == "list" {
+			f.Kind, f.Value = "parent", parent // a Host header cannot carry a list
+		}
+	case "Forwarded":
+		v := "for=192.0.2.7;host=\"" + f.Value + "\""
+		if f.Kind == "list" {
+			v = "host=evil.example, host=" + effHost
+		}
+		f.Headers = [][2]string{{"Forwarded", v}}
+	case "X-Forwarded-Port":
+		f.Headers = [][2]string{{name, []string{"8443", "443", f.Value}[r.Intn(3)]}}
+	default:
+		f.Headers = [][2]string{{name, f.Value}}
+	}
+	return f
+}
+
+// ---------------------------------------------------------------------------------------------
 // scenarios
 
 type scenario struct {
@@ -350,6 +420,7 @@ type obs struct {
 	XFP      string            `json:"x_forwarded_proto"`
 	XFPClass string            `json:"x_forwarded_proto_class"`
 	XHR      bool              `json:"xhr,omitempty"`
+	Fwd      forward           `json:"hostile_forwarding"`
 	Adv      *adv              `json:"upstream_behaviour,omitempty"`
 	Status   int               `json:"status"`
 	Interim  []int             `json:"interim_statuses,omitempty"`
@@ -375,9 +446,19 @@ func (rn *runner) request(idx int, st *stackCfg, up *upCfg, scen, step string, r
 	if a != nil {
 		rq.Headers = append(rq.Headers, [2]string{advHeader, a.encode()})
 	}
-	res := do(st.ps.Addr, rq)
+	// rq.Host is the effective host; the forwarding attack only changes what goes on the wire
+	wire := rq
+	wire.Headers = append(append([][2]string(nil), rq.Headers...), rq.Fwd.Headers...)
+	if rq.Fwd.AbsForm && strings.HasPrefix(rq.Target, "/") {
+		wire.Target = "http://" + rq.Host + rq.Target
+		wire.Host = rq.Fwd.Value
+	}
+	res := do(st.ps.Addr, wire)
 	o := &obs{Stack: st, Upstream: up, Scenario: scen, Step: step, Method: rq.Method, Host: rq.Host, Target: rq.Target,
-		XFP: xfp.Name, XFPClass: xfp.Class, Adv: a}
+		XFP: xfp.Name, XFPClass: xfp.Class, Adv: a, Fwd: rq.Fwd}
+	if rq.Fwd.Via != "" {
+		rn.rep.Count("requests_with_hostile_"+rq.Fwd.Via, 1)
+	}
 	for _, h := range rq.Headers {
 		if h[0] == "X-Requested-With" {
 			o.XHR = true
@@ -593,6 +674,29 @@ func (rn *runner) judge(idx int, st *stackCfg, up *upCfg, o *obs, rq wreq, res *
 		}
 	}
 
+	// the return address handed to the authenticator names the effective request host, nothing else
+	if o.Class == "redirect-sign-in" || o.Class == "sign-out" {
+		_, _, _, lq := splitTarget(f.get("Location"))
+		if vals, err := url.ParseQuery(lq); err == nil && vals.Get("redirect_uri") != "" {
+			ru := vals.Get("redirect_uri")
+			if strings.HasPrefix(ru, "//") {
+				// scheme-relative return address: what /oauth2/sign_out builds for an absolute-form request
+				// target. Only the host is this property's business (C19 judges the address as a whole).
+				rep.Count("dontcare_return_address_without_scheme", 1)
+				ru = "x:" + ru
+			}
+			_, rauth, _, _ := splitTarget(ru)
+			rep.Count("return_address_host_checked_"+o.Class, 1)
+			if o.Fwd.Via != "" {
+				rep.Count("return_address_host_checked_under_hostile_header", 1)
+			}
+			if !strings.EqualFold(rauth, rq.Host) {
+				rep.Violate(rn.stream, idx, fmt.Sprintf("proxy: %s redirect_uri host not-request-host via=%s", o.Class, o.Fwd.via()),
+					fmt.Sprintf("redirect_uri %q handed to the authenticator for a request to host %q", vals.Get("redirect_uri"), rq.Host), o)
+			}
+		}
+	}
+
 	// I2: https upgrade
 	if st.Secure {
 		scheme, authority, rpath, rquery := splitTarget(rq.Target)
@@ -610,6 +714,9 @@ func (rn *runner) judge(idx int, st *stackCfg, up *upCfg, o *obs, rq wreq, res *
 		}
 		if isUpgrade && (must || o.XFPClass == "ambiguous") {
 			rep.Count("https_upgrade_checked", 1)
+			if o.Fwd.Via != "" {
+				rep.Count("https_upgrade_checked_under_hostile_header", 1)
+			}
 			rep.Count("https_upgrade_xfp_"+o.XFP, 1)
 			loc := f.get("Location")
 			_, lauth, lpath, lquery := splitTarget(loc)
@@ -619,7 +726,7 @@ func (rn *runner) judge(idx int, st *stackCfg, up *upCfg, o *obs, rq wreq, res *
 			}
 			switch {
 			case !strings.EqualFold(lauth, wantHost):
-				rep.Violate(rn.stream, idx, "proxy: https redirect changes host", fmt.Sprintf("Location %q for Host %q", loc, wantHost), o)
+				rep.Violate(rn.stream, idx, "proxy: https redirect changes host via="+o.Fwd.via(), fmt.Sprintf("Location %q for effective host %q", loc, wantHost), o)
 			case pctDecode(lpath) != pctDecode(rpath):
 				rep.Violate(rn.stream, idx, "proxy: https redirect changes path", fmt.Sprintf("Location %q for target %q", loc, rq.Target), o)
 			case lquery != rquery:
@@ -734,9 +841,13 @@ func (rn *runner) cookieVerdict(idx int, st *stackCfg, o *obs, w *wresp, reqHost
 		}
 		if wantDom != "" {
 			rep.Count("cookie_domain_checked_"+kind, 1)
+			if o.Fwd.Via != "" {
+				rep.Count("cookie_domain_checked_under_hostile_"+o.Fwd.Via, 1)
+				rep.Count("cookie_domain_checked_under_hostile_kind_"+o.Fwd.Kind, 1)
+			}
 			if !strings.EqualFold(strings.TrimPrefix(c.Domain, "."), wantDom) {
 				ok = false
-				bad("Domain", "not-"+kind)
+				bad("Domain", "not-"+kind+" via="+o.Fwd.via())
 			}
 		}
 		if ok {
@@ -874,8 +985,9 @@ func (rn *runner) runStack(env vh.Env, st *stackCfg, lo, n, nSlow, only int) {
 			a.Net = ""
 		}
 		path := proxiedPaths[r.Intn(len(proxiedPaths))]
+		fwd := pickForward(r, host)
 		mk := func(target string, cookies ...string) wreq {
-			return wreq{Method: method, Host: host, Target: target, Headers: append([][2]string(nil), hdrs...), Cookies: cookies, Body: body}
+			return wreq{Method: method, Host: host, Target: target, Headers: append([][2]string(nil), hdrs...), Cookies: cookies, Body: body, Fwd: fwd}
 		}
 
 		switch scen {
@@ -962,14 +1074,14 @@ func (rn *runner) runStack(env vh.Env, st *stackCfg, lo, n, nSlow, only int) {
 				rn.request(i, st, nil, scen, "", rq, xfp, nil)
 			}
 		case "callback-redeem-fail", "callback-bad-state", "callback-mismatch", "callback-denied", "callback-ok":
-			rn.callbackFlow(i, r, st, up, scen, host, method, hdrs, xfp)
+			rn.callbackFlow(i, r, st, up, scen, host, method, hdrs, xfp, fwd)
 		}
 
 		// the https upgrade itself, with request targets of every shape (secure stacks only)
 		if st.Secure && r.Intn(5) == 0 {
 			v := xfpOthers[r.Intn(len(xfpOthers))]
 			target := pathVariety[r.Intn(len(pathVariety))]
-			rq := wreq{Method: method, Host: host, Target: target, Headers: append([][2]string(nil), hdrs...), Body: body}
+			rq := wreq{Method: method, Host: host, Target: target, Headers: append([][2]string(nil), hdrs...), Body: body, Fwd: pickForward(r, host)}
 			switch r.Intn(8) {
 			case 0:
 				rq.Target = "http://" + host + target
@@ -986,13 +1098,13 @@ func (rn *runner) runStack(env vh.Env, st *stackCfg, lo, n, nSlow, only int) {
 }
 
 // callbackFlow walks start -> /oauth2/callback in the requested flavour; every response on the way is judged.
-func (rn *runner) callbackFlow(i int, r *rand.Rand, st *stackCfg, up *upCfg, scen, host, method string, hdrs [][2]string, xfp xfpVariant) {
+func (rn *runner) callbackFlow(i int, r *rand.Rand, st *stackCfg, up *upCfg, scen, host, method string, hdrs [][2]string, xfp xfpVariant, fwd forward) {
 	ps := st.ps
 	if st.Secure {
 		xfp = xfpHTTPS
 	}
 	start := func() (state, csrf string, ok bool) {
-		res, _ := rn.request(i, st, up, scen, "start", wreq{Method: "GET", Host: host, Target: "/start/" + sut.NewID() + "?a=b"}, xfp, nil)
+		res, _ := rn.request(i, st, up, scen, "start", wreq{Method: "GET", Host: host, Target: "/start/" + sut.NewID() + "?a=b", Fwd: fwd}, xfp, nil)
 		if res.Final == nil || res.Final.Status != 302 {
 			return "", "", false
 		}
@@ -1058,7 +1170,7 @@ func (rn *runner) callbackFlow(i int, r *rand.Rand, st *stackCfg, up *upCfg, sce
 	if method == "HEAD" || method == "POST" {
 		m = method
 	}
-	rq := wreq{Method: m, Host: host, Target: "/oauth2/callback?" + q.Encode(), Headers: append([][2]string(nil), hdrs...), Cookies: cookies}
+	rq := wreq{Method: m, Host: host, Target: "/oauth2/callback?" + q.Encode(), Headers: append([][2]string(nil), hdrs...), Cookies: cookies, Fwd: fwd}
 	if m == "POST" {
 		rq.Body = []byte{}
 	}
